@@ -28,7 +28,7 @@ EXHAUSTIVE = {"flag": True, "scope": "all shapes 0..3 x 0..3 for every directed 
 ANCHOR_FUNCS = ["table:Table.__init__", "table:Table.__rshift__", "table:Table.__lshift__", "table:Table.T", "table:Table.__getitem__", "table:Table.__iter__"]
 REQUIRED_STRATA = {"recompute": 200, "structural": 200, "steps": 2000}
 
-OPS = ["row-write-own-column", "row-held-across-writes", "colselect-2d-then-write", "write-bad-column-position", "gather-big", "sort-repeated-labels", ">>own-column-then-write", "rowslice-2d", "<<table-zero-rows", "<<row-bytearray", ">>nothing", ">>vector", ">>vector-wrong", ">>list", ">>dict", ">>dict-wrong", ">>table", ">>table-wrong", "<<row", "<<row-short", "<<row-long", "<<table", "<<row-widen", ">>dict-own-column",
+OPS = ["rows-by-own-int-column", "mask-none-then-lshift", "select-accessor-before-stored", "row-write-own-column", "row-held-across-writes", "colselect-2d-then-write", "write-bad-column-position", "gather-big", "sort-repeated-labels", ">>own-column-then-write", "rowslice-2d", "<<table-zero-rows", "<<row-bytearray", ">>nothing", ">>vector", ">>vector-wrong", ">>list", ">>dict", ">>dict-wrong", ">>table", ">>table-wrong", "<<row", "<<row-short", "<<row-long", "<<table", "<<row-widen", ">>dict-own-column",
 	"rowslice", "rowmask", "T.T", "attr", "attr-wrong", "ragged-ctor", "attr-iterable", "setitem-table", "<<table-dupnames", ">>table-dupnames", "vector>>"]
 
 
@@ -244,6 +244,83 @@ def run_structural(chk, spec):
 		exp[j][0] = newv
 		if any(not M.eq_list(g, e) for g, e in zip(after_r, exp)):
 			chk.fail("a cell write changes that cell only (columns built from one vector are separate columns)", f"structural/{op}/other-cells-changed", f"{spec!r}: {short(before_r, 160)} -> {short(after_r, 160)}, expected {short(exp, 160)}")
+		return
+	elif op == "rows-by-own-int-column":
+		# t[t.pos, cols] = values: the rows are those the selector named when the statement started, for EVERY target column - also when the selector is one
+		# of the table's own int columns, is itself among the targets and is written before the others
+		if r < 2:
+			chk.skip("structural-too-few-rows")
+			return
+		perm = list(range(r))
+		rng.shuffle(perm)
+		k = 2 if r > 2 else 1
+		picks = perm[:k] if spec["key"][0] % 2 == 0 else [perm[0]] * 1 + perm[1:k]
+		pos = [picks[i % len(picks)] for i in range(r)]
+		t2 = Table([Vector(list(pos), name="pos"), Vector([100 + i for i in range(r)], name="x"), Vector([200 + i for i in range(r)], name="y")])
+		sel = [t2.cols()[0], t2["pos"], t2.pos][spec["key"][1] % 3]
+		rows_addressed = list(pos)
+		form = spec["key"][2] % 3
+		if form == 0:
+			key, value, targets = (sel, ["pos", "x", "y"]), [[r - 1 - p for p in pos], [-1] * r, [-2] * r], [0, 1, 2]
+		elif form == 1:
+			key, value, targets = (sel, slice(None)), 0, [0, 1, 2]
+		else:
+			key, value, targets = (sel, ["pos", "y"]), [[0] * r, [-7] * r], [0, 2]
+		exp = [list(pos), [100 + i for i in range(r)], [200 + i for i in range(r)]]
+		for jj, tj in enumerate(targets):
+			for m_, row_ in enumerate(rows_addressed):
+				exp[tj][row_] = value if not isinstance(value, list) else value[jj][m_]
+		o = call(lambda: t2.__setitem__(key, value))
+		if fail_rect(chk, t2, op, spec):
+			return
+		if not o.ok:
+			chk.skip("structural-rows-by-own-column-refused")
+			return
+		got = tcells(t2)
+		if any(not M.eq_list(g, e) for g, e in zip(got, exp)):
+			chk.fail("row selections apply uniformly to all columns (the rows addressed are those of the statement's start)", f"structural/{op}/wrong-cells", f"{spec!r}: pos {pos!r}: {short(got, 200)} vs model {short(exp, 200)}")
+		return
+	elif op == "mask-none-then-lshift":
+		# a selection that keeps no row is still a table of those columns: rows can be appended to it, and appending it changes nothing
+		if c == 0 or r == 0:
+			chk.skip("structural-no-cells")
+			return
+		sel = call(lambda: [t[[False] * r], t[Vector([False] * r)], t[0:0], t[r:]][spec["key"][0] % 4])
+		if not sel.ok or not isinstance(sel.value, Table):
+			chk.fail("row slices and masks apply uniformly to all columns", f"structural/{op}/selection-raises", f"{spec!r}: {sel!r}")
+			return
+		row = [cols[j][0] for j in range(c)]
+		how = spec["key"][1] % 3
+		o = call(lambda: [lambda: sel.value << row, lambda: sel.value << t, lambda: t << sel.value][how]())
+		if not o.ok:
+			chk.fail("<< appends rows to every column", f"structural/{op}/raises/{['row', 'table', 'onto-table'][how]}/{type(o.exc).__name__}", f"{spec!r}: {o!r}")
+			return
+		exp = [[x] for x in row] if how == 0 else [list(x) for x in cols]
+		expect_cells(chk, dict(spec, form=how), o.value, exp, "<< appends rows to every column", "wrong-cells")
+		return
+	elif op == "select-accessor-before-stored":
+		# t[n1, n2, ...]: the selected columns come in the order asked for, whichever spelling (stored name, positional accessor) each name uses
+		if c < 2 or r == 0:
+			chk.skip("structural-too-narrow")
+			return
+		import warnings
+		with warnings.catch_warnings():
+			warnings.simplefilter("ignore")
+			variant = spec["key"][0] % 3
+			if variant == 0:
+				t2 = Table([Vector(list(cols[0]))] + [Vector(list(cols[j]), name=names[j]) for j in range(1, c)])
+				ask, want = ("col0_", names[c - 1]), [0, c - 1]
+			elif variant == 1:
+				t2 = Table([Vector(list(cols[j]), name="b") for j in range(c)])
+				ask, want = (f"b__{c - 1}", "b"), [c - 1, 0]
+			else:
+				t2 = Table([Vector(list(cols[j]), name=names[j]) for j in range(c - 1)] + [Vector(list(cols[c - 1]))])
+				ask, want = (f"col{c - 1}_", names[0]), [c - 1, 0]
+			o = call(lambda: t2[ask] if spec["key"][1] % 2 == 0 else t2[0:r, ask])
+		if not o.ok:
+			chk.skip("structural-select-refused")
+			return
+		expect_cells(chk, dict(spec, ask=ask), o.value, [list(cols[j]) for j in want], "selected columns come in the order asked for", "wrong-cells")
 		return
 	elif op == "row-write-own-column":
 		# t[i, cols] = (one of the table's own columns): the row takes the values that column held when the statement started
@@ -591,6 +668,12 @@ def run(chk):
 					variants = [(a, b) for a in range(4) for b in range(3)]
 				elif op == ">>own-column-then-write":
 					variants = [(0, 0), (1, 0), (2, 0)]
+				elif op == "rows-by-own-int-column":
+					variants = [(a, b, f) for a in range(2) for b in range(3) for f in range(3)] if r >= 2 and c == 1 else []
+				elif op == "mask-none-then-lshift":
+					variants = [(a, b, 0) for a in range(4) for b in range(3)] if r and c else []
+				elif op == "select-accessor-before-stored":
+					variants = [(a, b, 0) for a in range(3) for b in range(2)] if r and c >= 2 else []
 				elif op == "row-write-own-column":
 					variants = [(i, j, f) for i in range(max(r, 1)) for j in range(max(c, 1)) for f in range(3)] if r and c else []
 				elif op == "row-held-across-writes":
